@@ -111,6 +111,40 @@ def replay(p):
                     abs(pa[3] - ct * pp), abs(pa[1] - math.cos(phi) * pT), abs(pa[2] - math.sin(phi) * pT)]
             err = max(errs)
             scale = 1 + M * M
+        elif kind == "chain_boost":
+            # numeric replay: build momenta from angles for the topology, extract the angles again
+            from tf_pwa.amp import DecayChain, get_decay, get_particle
+            from tf_pwa.data_trans.helicity_angle import HelicityAngle
+
+            mk = lambda n, mm: get_particle(n + "_rp", mass=mm)
+            A, B, C, D, E, F = [mk(n, mm) for n, mm in zip("ABCDEF", [5.0, 0.2, 0.3, 0.4, 0.15, 0.25])]
+            Rr, Sr, Tr = mk("R", 3.5), mk("S", 2.5), mk("T", 1.0)
+            R2, S2, T3 = mk("R2", 2.0), mk("S2", 1.5), mk("T3", 1.0)
+            dec = get_decay
+            topo = {
+                "3body": lambda: DecayChain([dec(A, [Rr, C]), dec(Rr, [B, D])]),
+                "4seq": lambda: DecayChain([dec(A, [Rr, C]), dec(Rr, [Sr, D]), dec(Sr, [B, E])]),
+                "4branch": lambda: DecayChain([dec(A, [R2, S2]), dec(R2, [B, C]), dec(S2, [D, E])]),
+                "5branch": lambda: DecayChain([dec(A, [mk("R3", 2.5), mk("S3", 1.5)]), ]),
+                "5seq": lambda: DecayChain([dec(A, [Rr, C]), dec(Rr, [Sr, D]), dec(Sr, [Tr, E]), dec(Tr, [B, F])]),
+            }
+            if p["topology"] == "5branch":
+                R3, S3 = mk("R3", 2.5), mk("S3", 1.5)
+                chain = DecayChain([dec(A, [R3, S3]), dec(R3, [T3, C]), dec(T3, [B, F]), dec(S3, [D, E])])
+            else:
+                chain = topo[p["topology"]]()
+            ha = HelicityAngle(chain)
+            rng = np.random.RandomState(3)
+            nd = len(list(chain))
+            n = 8
+            cos = [rng.uniform(-0.9, 0.9, n) for _ in range(nd)]
+            phi = [rng.uniform(-3.0, 3.0, n) for _ in range(nd)]
+            ms = {k: v + tf.zeros([n], tf.float64) for k, v in ha.get_all_mass({}).items()}
+            p4 = ha.build_data(ms, cos, phi)
+            dat = ha.cal_angle(dict(p4))
+            ms2, cos2, phi2 = ha.find_variable(dat)
+            err = max(float(np.max(np.abs(np.asarray(c2) - c1))) for c1, c2 in zip(cos, cos2))
+            err = max(err, max(float(np.max(np.abs(np.sin(np.asarray(f2)) - np.sin(f1)))) for f1, f2 in zip(phi, phi2)))
         elif kind in ("euler_top", "euler_gamma"):
             from tf_pwa.angle import EulerAngle
 
